@@ -76,6 +76,7 @@ class Analyzer:
         self.closure_seeds = {}         # closure body id -> {arg local: (lo, hi)}
         self.mag = False                # C03: emit MAG obligations at loop-count / allocation-size / dimension sinks
         self.s9_unsigned = bool(os.environ.get('VERIF_S9U'))   # evaluate unsigned-subtraction overflow checks (class S9u)
+        self.infeasible = ()            # (block, successor) edges a rule has shown to be dead (C09: R-ORIGIN)
         self.prune = True               # drop facts about dead temporaries on every edge (State.prune_dead)
         self.mag_pos = frozenset()      # C03: the cursor coordinate terms reachable from the parameters (bounded on entry by C09)
         self.mag_soft = frozenset()     # C03: terms whose entry invariant is not to be relied on for loop trip counts (see interproc.analyse)
@@ -1695,6 +1696,8 @@ class Analyzer:
                 for succ, so in outs:
                     if so is None or so.bottom:
                         continue
+                    if self.infeasible and (bi, succ) in self.infeasible:
+                        continue
                     if live_in is not None:
                         so.prune_dead(live_in[succ], body.argc)
                     got[succ] = so if succ not in got else got[succ].join(so)
@@ -1829,6 +1832,10 @@ class Analyzer:
                 for succ, so in outs:
                     if so is None or so.bottom:
                         continue
+                    if self.infeasible and (bi, succ) in self.infeasible:
+                        continue
+                    if live_in is not None:
+                        so.prune_dead(live_in[succ], body.argc)
                     got[succ] = so if succ not in got else got[succ].join(so)
                 for succ in body.succ[bi]:
                     if succ in got:
